@@ -7,6 +7,35 @@ From Verif Require Import gen.RingBuffer model.RingBuffer.
 Lemma wrap_mod : forall c i, wrap c i = i mod c.
 Proof. reflexivity. Qed.
 
+(* Gap.contains as translated: start <= timestamp < end *)
+Lemma gap_contains_spec : forall k s e, gap_contains k s e = (s <=? k) && (k <? e).
+Proof. intros. unfold gap_contains. destruct ((s <=? k) && (k <? e)); reflexivity. Qed.
+
+Lemma contains_unfold : forall g k, contains g k = (fst g <=? k) && (k <? snd g).
+Proof. intros. rewrite ?contains_unfold. apply gap_contains_spec. Qed.
+
+(* normalize_timestamp as translated: the datetime align + n * period, where n is the floor
+   quotient, plus one when the remainder is beyond half a period (or exactly half and n is odd) *)
+Lemma normalize_timestamp_spec : forall t a p h,
+  rb_normalize_timestamp t a p h =
+  a + (let n := (t - a) / p in let r := (t - a) mod p in
+       if negb (r =? 0) && (((h =? r) && negb (n mod 2 =? 0)) || (h <? r)) then n + 1 else n) * p.
+Proof.
+  intros. unfold rb_normalize_timestamp. cbv zeta.
+  destruct (negb ((t - a) mod p =? 0)); cbn [andb]; [|reflexivity].
+  destruct (((h =? (t - a) mod p) && negb ((t - a) / p mod 2 =? 0)) || (h <? (t - a) mod p)); reflexivity.
+Qed.
+
+Lemma norm_slot_unfold : forall p a t, 0 < p ->
+  norm_slot p a t =
+  (let n := (t - a) / p in let r := (t - a) mod p in
+   if negb (r =? 0) && (((td_half p =? r) && negb (n mod 2 =? 0)) || (td_half p <? r)) then n + 1 else n).
+Proof.
+  intros p a t Hp. unfold norm_slot. rewrite normalize_timestamp_spec.
+  match goal with |- (a + ?n * p - a) / p = _ => replace (a + n * p - a) with (n * p) by lia end.
+  apply Z.div_mul. lia.
+Qed.
+
 Ltac brk :=
   repeat match goal with
          | |- context[if ?b then _ else _] => let E := fresh "E" in destruct b eqn:E
@@ -40,7 +69,7 @@ Fixpoint pdisj (l : list gap) : Prop :=
   end.
 
 Lemma contains_iff : forall g k, contains g k = true <-> fst g <= k < snd g.
-Proof. intros g k. unfold contains. lia. Qed.
+Proof. intros g k. rewrite contains_unfold. lia. Qed.
 
 Lemma is_missing_cons : forall g l k, is_missing (g :: l) k = contains g k || is_missing l k.
 Proof. reflexivity. Qed.
@@ -68,7 +97,7 @@ Lemma chain_below : forall l lo k, chain lo l -> k < lo -> is_missing l k = fals
 Proof.
   induction l as [|g r IH]; intros lo k Hc Hk; [reflexivity|].
   cbn [chain] in Hc. destruct Hc as (H1 & H2 & H3).
-  rewrite is_missing_cons, (IH (snd g) k H3) by lia. unfold contains. lia.
+  rewrite is_missing_cons, (IH (snd g) k H3) by lia. rewrite ?contains_unfold. lia.
 Qed.
 
 Lemma chain_pdisj : forall l lo, chain lo l -> pdisj l.
@@ -200,7 +229,7 @@ Proof.
         destruct (IH (Some (fst w, snd x)) L Hhir) as [Hwf Hmem].
         { cbn [fst snd]. repeat split; try lia. exact Hch. }
         split; [exact Hwf|]. intros j. rewrite Hmem, is_missing_cons. cbn [cur_contains].
-        unfold contains. cbn [fst snd].
+        rewrite ?contains_unfold. cbn [fst snd].
         destruct (is_missing r j); lia.
       * (* separate: emit w, go on with x *)
         destruct (trim_spec old x) as [[Ht _]|[[_ [Ht _]]|[_ [_ Ht]]]]; try lia.
@@ -211,22 +240,22 @@ Proof.
         -- cbn [gaps_wf]. repeat split; try lia.
            replace (Z.max (snd w + 1) old) with (snd w + 1) in Hwf by lia. exact Hwf.
         -- intros j. rewrite is_missing_cons, Hmem, is_missing_cons. cbn [cur_contains].
-           unfold contains. destruct (is_missing r j); lia.
+           rewrite ?contains_unfold. destruct (is_missing r j); lia.
     + cbn [chain] in Hc. destruct Hc as (Hx1 & Hx2 & Hch).
       destruct (trim_spec old x) as [[Ho Ht]|[[Ho [Hs Ht]]|[Ho [Hs Ht]]]]; rewrite Ht.
       * destruct (IH None (snd x) Hhir Hch) as [Hwf Hmem].
         split.
         -- replace (Z.max L old) with (Z.max (snd x) old) by lia. exact Hwf.
-        -- intros j. rewrite Hmem, is_missing_cons. cbn [cur_contains]. unfold contains.
+        -- intros j. rewrite Hmem, is_missing_cons. cbn [cur_contains]. rewrite ?contains_unfold.
            destruct (is_missing r j); lia.
       * destruct (IH (Some (old, snd x)) L Hhir) as [Hwf Hmem].
         { cbn [fst snd]. repeat split; try lia. exact Hch. }
         split; [exact Hwf|]. intros j. rewrite Hmem, is_missing_cons. cbn [cur_contains].
-        unfold contains. cbn [fst snd]. destruct (is_missing r j); lia.
+        rewrite ?contains_unfold. cbn [fst snd]. destruct (is_missing r j); lia.
       * destruct (IH (Some x) L Hhir) as [Hwf Hmem].
         { repeat split; try lia. exact Hch. }
         split; [exact Hwf|]. intros j. rewrite Hmem, is_missing_cons. cbn [cur_contains].
-        unfold contains. destruct (is_missing r j); lia.
+        rewrite ?contains_unfold. destruct (is_missing r j); lia.
 Qed.
 
 (* what _cleanup_gaps achieves on any list of non-empty, pairwise disjoint gaps *)
@@ -265,14 +294,14 @@ Proof.
            ++ apply chain_weaken with (snd g); [lia|exact H3].
            ++ exact Hrest.
            ++ discriminate.
-           ++ intros j. rewrite is_missing_cons. cbn [cur_contains]. unfold contains.
+           ++ intros j. rewrite is_missing_cons. cbn [cur_contains]. rewrite ?contains_unfold.
               destruct (Z.eq_dec j k) as [->|Hne]; [rewrite Hnk; lia|].
               destruct (is_missing rest j); lia.
         -- split; [|split; [|split]].
            ++ cbn [chain fst snd]. split; [lia|]. split; [lia|]. exact H3.
            ++ intros x [<-|Hx]; cbn [snd]; auto.
            ++ discriminate.
-           ++ intros j. rewrite !is_missing_cons. cbn [cur_contains]. unfold contains. cbn [fst snd].
+           ++ intros j. rewrite !is_missing_cons. cbn [cur_contains]. rewrite ?contains_unfold. cbn [fst snd].
               destruct (Z.eq_dec j k) as [->|Hne]; [rewrite Hnk; lia|].
               destruct (is_missing rest j); lia.
       * destruct (snd g - 1 =? k) eqn:E2; injection Hgo as Hr Ha; subst r a.
@@ -280,7 +309,7 @@ Proof.
            ++ cbn [chain fst snd]. split; [lia|]. split; [lia|]. apply chain_weaken with (snd g); [lia|exact H3].
            ++ intros x [<-|Hx]; cbn [snd]; auto. lia.
            ++ discriminate.
-           ++ intros j. rewrite !is_missing_cons. cbn [cur_contains]. unfold contains. cbn [fst snd].
+           ++ intros j. rewrite !is_missing_cons. cbn [cur_contains]. rewrite ?contains_unfold. cbn [fst snd].
               destruct (Z.eq_dec j k) as [->|Hne]; [rewrite Hnk; lia|].
               destruct (is_missing rest j); lia.
         -- split; [|split; [|split]].
@@ -290,7 +319,7 @@ Proof.
               split; [lia|]. split; [lia|]. split; [lia|].
               intros x [<-|Hx]; unfold disj; cbn [fst snd]; [lia|].
               destruct (chain_starts _ _ _ H3 Hx). lia.
-           ++ intros j. rewrite !is_missing_cons. cbn [cur_contains]. unfold contains. cbn [fst snd].
+           ++ intros j. rewrite !is_missing_cons. cbn [cur_contains]. rewrite ?contains_unfold. cbn [fst snd].
               destruct (Z.eq_dec j k) as [->|Hne]; [rewrite Hnk; lia|].
               destruct (is_missing rest j); lia.
     + destruct (remove_gap_go k rest) as [r' a'] eqn:Ego. injection Hgo as Hr Ha; subst r a.
@@ -302,7 +331,7 @@ Proof.
         split; [lia|]. split; [lia|]. split; [lia|].
         intros x [<-|Hx]; [left; lia|auto].
       * intros j. rewrite !is_missing_cons. specialize (I4 j).
-        unfold contains in *. destruct (is_missing r' j), (cur_contains a' j), (is_missing rest j); lia.
+        rewrite ?contains_unfold in *. destruct (is_missing r' j), (cur_contains a' j), (is_missing rest j); lia.
 Qed.
 
 Lemma remove_gap_spec : forall k gs lo hi,
